@@ -65,6 +65,13 @@ ALTS = {
 }
 
 
+ALTS3 = {
+    "suite": [0x1302, 0x1303, 0x1304], "offered": ["other_first", "chacha_first"], "ccid_len": [0], "scid_len": [0, 20],
+    "pn": [(1, 0, 1), (4, (1 << 31) - 2, 1)], "coalesce": ["ini+hs+1rtt"], "ch_split": ["2:10:p", "3:201:s"], "retry": [True],
+    "zero_rtt": [True], "ncid": ["s8c8"], "v6": [True], "stream_flags": ["nolen+off+fin"], "script": ["two_frames"],
+}
+
+
 def to_model(sc):
     """translate a symbolic scenario into model options"""
     m = {}
@@ -121,7 +128,8 @@ def valid(sc):
 
 def describe(tier):
     return {
-        "rule": "K: every scenario within 2 deviations of the default QUIC v1 connection over the alternative menu; "
+        "rule": "K: every scenario within 2 deviations of the default QUIC v1 connection over the alternative menu (thorough: also every "
+                "3-deviation scenario over a reduced 19-alternative menu); "
                 "F: every sequence of <=2 (thorough <=3) frames from an 18-frame menu before and after the STREAM frame; "
                 "U: every distinct packet history (<=8 packets, <=3 key generations; thorough <=10) produced by the RFC 9001 "
                 "section 6 key-update transition system. non-trivial: stream bytes exported in both directions; distinct = "
@@ -187,6 +195,10 @@ def cases(tier, seed):
     for d1 in ALTS:
         for v1 in ALTS[d1]:
             yield {"layer": "K", "d1": d1, "v1": v1, "seed": seed}
+    if tier == "thorough":
+        dims = list(ALTS3)
+        for trip in itertools.combinations(dims, 3):
+            yield {"layer": "K3", "dims": list(trip), "seed": seed}
     n = 2 if tier == "quick" else 3
     for pos in ("before", "after"):
         for f1 in FRAMES_F:
@@ -254,6 +266,12 @@ def run_case(case):
                     s2 = {d1: v1, d2: v2}
                     if valid(s2):
                         one(s2, {"layer": "K", "dev": {d1: str(v1), d2: str(v2)}})
+    elif case["layer"] == "K3":
+        d = case["dims"]
+        for vals in itertools.product(*[ALTS3[x] for x in d]):
+            sc = {k: (tuple(v) if isinstance(v, list) else v) for k, v in zip(d, vals)}
+            if valid(sc):
+                one(sc, {"layer": "K3", "dev": {k: str(v) for k, v in sc.items()}})
     elif case["layer"] == "F":
         pos, depth = case["pos"], case["depth"]
 
